@@ -498,14 +498,14 @@ Lemma sock_state_update_spec c f :
   c_connected (fst r) = c_connected c /\ c_tfo_initial (fst r) = c_tfo_initial c.
 Proof. unfold sock_state_update. cbn. destruct (c_rw c =? f); cbn; auto 10. Qed.
 
-Definition want_flags (tfo tcp : bool) (pending : list Z) : Z :=
+Definition want_flags (tfo : bool) (pending : list Z) : Z :=
   Z.lor ARES_CONN_STATE_READ
     (Z.lor (if tfo then ARES_CONN_STATE_WRITE else 0)
-           (if tcp && negb (Z.of_nat (length pending) =? 0) then ARES_CONN_STATE_WRITE else 0)).
+           (if negb (Z.of_nat (length pending) =? 0) then ARES_CONN_STATE_WRITE else 0)).
 
 Lemma flush_done_spec c tfo : owf c ->
   exists c' evs, flush_done c tfo = Ok (c', evs) /\ c_out c' = c_out c /\ c_tcp c' = c_tcp c /\
-    server_bytes evs = [] /\ c_rw c' = want_flags tfo (c_tcp c) (remaining (c_out c)) /\
+    server_bytes evs = [] /\ c_rw c' = want_flags tfo (remaining (c_out c)) /\
     c_connected c' = c_connected c /\ c_tfo_initial c' = c_tfo_initial c.
 Proof.
   intros (H1 & H2 & H3). unfold flush_done. destruct (c_out c) as [d off t] eqn:Eo.
@@ -528,7 +528,7 @@ Definition flush_post (c : conn) (ws : list wcap) (c' : conn) (st : Z) (evs : li
   c_tcp c' = true /\ owf c' /\ b_data (c_out c') = b_data (c_out c) /\
   server_bytes evs ++ remaining (c_out c') = remaining (c_out c) /\
   (st = ARES_SUCCESS \/ st = ARES_ECONNREFUSED) /\
-  (st = ARES_SUCCESS -> c_rw c' = want_flags (c_tfo_initial c) true (remaining (c_out c'))) /\
+  (st = ARES_SUCCESS -> c_rw c' = want_flags (c_tfo_initial c) (remaining (c_out c'))) /\
   c_connected c' = c_connected c /\
   (c_connected c = true -> c_tfo_initial c = false ->
      match hd_cap ws with
@@ -554,7 +554,7 @@ Proof.
     + reflexivity.
     + reflexivity.
     + left; reflexivity.
-    + intros _. rewrite Hrw, Htcp, Eo. reflexivity.
+    + intros _. rewrite Hrw, Eo. reflexivity.
     + exact Hcn.
     + intros _ _. destruct (hd_cap ws); auto. intros _. unfold remaining. cbn [b_off b_data].
       rewrite skipn_length. lia.
@@ -575,7 +575,7 @@ Proof.
       * reflexivity.
       * reflexivity.
       * left; reflexivity.
-      * intros _. rewrite Hrw, Htcp, Eo. reflexivity.
+      * intros _. rewrite Hrw, Eo. reflexivity.
       * exact Hcn.
       * intros Hc Ht0. rewrite Hc, Ht0 in Enc. discriminate.
     + set (c1 := mkconn true (c_connected c) false (c_out c) (c_rw c)).
@@ -596,7 +596,7 @@ Proof.
            ++ reflexivity.
            ++ reflexivity.
            ++ left; reflexivity.
-           ++ intros _. rewrite Hrw, Hu2, Hu1. unfold c1. cbn [c_tcp c_out]. rewrite Eo. reflexivity.
+           ++ intros _. rewrite Hrw, Hu1. unfold c1. cbn [c_tcp c_out]. rewrite Eo. reflexivity.
            ++ rewrite Hcn, Hu5. reflexivity.
            ++ intros _ _ Hpos. lia.
         -- (* n > 0: min(n, len) bytes accepted *)
@@ -628,7 +628,7 @@ Proof.
               ** reflexivity.
               ** exact Hsplit.
               ** left; reflexivity.
-              ** intros _. rewrite Hrw. unfold c3, set_out. cbn [c_tcp c_out]. rewrite Hu2. unfold c1. cbn [c_tcp].
+              ** intros _. rewrite Hrw. unfold c3, set_out. cbn [c_tcp c_out].
                  unfold remaining. cbn [b_off b_data].
                  replace (Z.to_nat (off + written)) with (Z.to_nat off + Z.to_nat written)%nat by lia. reflexivity.
               ** rewrite Hcn. unfold c3, set_out. cbn [c_connected]. rewrite Hu5. reflexivity.
@@ -806,7 +806,7 @@ Theorem write_progress c n ws : c_tcp c = true -> owf c -> c_connected c = true 
   0 < n ->
   exists c' st evs ws', conn_flush c (Cap n :: ws) = Ok (c', st, evs, ws') /\ st = ARES_SUCCESS /\
     length (remaining (c_out c')) = (length (remaining (c_out c)) - Z.to_nat n)%nat /\
-    c_rw c' = want_flags false true (remaining (c_out c')).
+    c_rw c' = want_flags false (remaining (c_out c')).
 Proof.
   intros Htcp Hwf Hc Ht Hn.
   destruct (conn_flush_tcp_spec c (Cap n :: ws) Htcp Hwf) as (c' & st & evs & ws' & Hf & Hp).
